@@ -10,9 +10,9 @@ _T2 = "quimb/tensor/tn2d/core.py"
 
 
 # obligations that fail on the UNCHANGED tree (open defects, reported): not counted as "caught"
-BASELINE_FAILING = {"DMRG._set_cutoff_seq": ("no-raise-TypeError",),
-                    "DMRG.solve": ("returned-variable-is-bound",),
-                    "._contract_boundary_core": ("no-raise-TypeError",)}
+# (the three defects that were listed here -- DMRG cutoffs=0, solve(max_sweeps=0), contract_boundary(max_bond=None,
+# compress_late=False) -- are repaired in /repo (F26-F28); their reverts are expect-fail mutants below)
+BASELINE_FAILING = {}
 
 
 def run_mutant(tmp, relpath, suffix, old, new):
@@ -120,10 +120,14 @@ MUTANTS = [
     (_DM, "DMRG._set_bond_dim_seq", "self._bond_dim0 = bds[0]", "self._bond_dim0 = bds[-1]", "expect-fail"),
     (_DM, "DMRG._set_bond_dim_seq", "self._bond_dims = itertools.chain(bds, itertools.repeat(bds[-1]))", "self._bond_dims = itertools.chain(bds, itertools.repeat(bds[-1] + 1))", "expect-fail"),
     (_DM, "DMRG._set_bond_dim_seq", "self._bond_dims = itertools.chain(bds, itertools.repeat(bds[-1]))", "self._cutoffs = itertools.chain(bds, itertools.repeat(bds[-1]))", "expect-fail"),
-    (_DM, "DMRG._set_bond_dim_seq", "bds = (bond_dims,) if isinstance(bond_dims, int) else tuple(bond_dims)", "bds = (bond_dims + 1,) if isinstance(bond_dims, int) else tuple(bond_dims)", "expect-fail"),
+    (_DM, "DMRG._set_bond_dim_seq", "(bond_dims,) if isinstance(bond_dims, Integral) else tuple(bond_dims)", "(bond_dims + 1,) if isinstance(bond_dims, Integral) else tuple(bond_dims)", "expect-fail"),
     (_DM, "DMRG._set_cutoff_seq", "self._cutoffs = itertools.chain(bds, itertools.repeat(bds[-1]))", "self._cutoffs = itertools.chain(bds, itertools.repeat(bds[0]))", "expect-fail"),
     (_DM, "DMRG._set_cutoff_seq", "self._cutoffs = itertools.chain(bds, itertools.repeat(bds[-1]))", "self._bond_dims = itertools.chain(bds, itertools.repeat(bds[-1]))", "expect-fail"),
-    (_DM, "DMRG._set_cutoff_seq", "bds = (cutoffs,) if isinstance(cutoffs, float) else tuple(cutoffs)", "bds = (cutoffs / 2,) if isinstance(cutoffs, float) else tuple(cutoffs)", "expect-fail"),
+    (_DM, "DMRG._set_cutoff_seq", "bds = (cutoffs,) if isinstance(cutoffs, Real) else tuple(cutoffs)", "bds = (cutoffs / 2,) if isinstance(cutoffs, Real) else tuple(cutoffs)", "expect-fail"),
+    # the repaired defects put back (F26, F27, F28)
+    (_T2, "._contract_boundary_core", "                            if (max_bond is None) or (\n                                bonds_size(t1, tn) > max_bond\n                            ):", "                            if bonds_size(t1, tn) > max_bond:", "expect-fail"),
+    (_DM, "DMRG._set_cutoff_seq", "bds = (cutoffs,) if isinstance(cutoffs, Real) else tuple(cutoffs)", "bds = (cutoffs,) if isinstance(cutoffs, float) else tuple(cutoffs)", "expect-fail"),
+    (_DM, "DMRG.solve", "        previous_direction = \"0\"\n        converged = False\n", "        previous_direction = \"0\"\n", "expect-fail"),
     (_DM, "DMRG._set_cutoff_seq", "self._cutoffs = itertools.chain(bds, itertools.repeat(bds[-1]))", "self._cutoffs = itertools.chain(bds, itertools.repeat(0.0))", "expect-fail"),
     # ---- _canonize_after_1site_update
     (_DM, "DMRG._canonize_after_1site_update", 'if (direction == "right") and ((i < self.L - 1) or self.cyclic):\n            self._k.left_canonize_site(i, bra=self._b)', 'if (direction == "right") and ((i < self.L - 1) or self.cyclic):\n            self._k.right_canonize_site(i, bra=self._b)', "expect-fail"),
